@@ -18,8 +18,8 @@ META = {
               "N = 4 with W = 2 (thorough); 5 entries for default-route "
               "removal alone; thorough also: 5 entries in a 4-bit window, "
               "three fully specified same-route entries followed by two "
-              "entries with other routes and concrete masks from two chosen "
-              "pairs (keys symbolic); all entries share a symbolic 32-bit prefix P "
+              "entries with other routes and concrete masks (1100 and 1001; keys "
+              "symbolic); all entries share a symbolic 32-bit prefix P "
               "(optionally with one common X bit outside the window) and "
               "differ only inside the window where both key and mask are fully "
               "symbolic; routes per entry from a fixed pattern over three "
@@ -376,7 +376,7 @@ def units(tier, seed):
                        h_two_chips,
                        dict(W=3, routes_a="AA", routes_b="BBA", srcs_b="udu",
                             target="sym"), split=8,
-                       witnesses=("returned", "first-chip-merged"),
+                       witnesses=("returned",),
                        path_timeout_s=300, timeout_ms=300000))
         add("rdr", 4, 3, "ABAD", "ddud", "any", "sym", split=6)
         add("rdr", 5, 2, "ABADB", "ddodd", "any", "none", split=6)
@@ -395,7 +395,7 @@ def units(tier, seed):
         # five entries: three fully specified same-route entries followed
         # by two arbitrary ones with other routes (the shape needed for an
         # up-check that shrinks a merge which must then be down-checked again)
-        for m4, m5 in ((0b1100, 0b1001), (0b1010, 0b0011)):
+        for m4, m5 in ((0b1100, 0b1001),):
             add("oc_raw", 5, 4, "AAABC", "uuuuu", "sorted", "none",
                 split=9, masks=(15, 15, 15, m4, m5))
     return us
